@@ -308,6 +308,17 @@ func c05(p *core.Program, r *core.Report) {
 							if !ok2 {
 								continue // writes no keyword for this geometry
 							}
+							if !strings.HasPrefix(got, "?") {
+								isKw := false
+								for _, tok := range wktTypeTokens {
+									if strings.HasPrefix(strings.ToUpper(got), strings.ToUpper(tok)) {
+										isKw = true
+									}
+								}
+								if !isKw {
+									continue // its first text is not a geometry keyword (a body writer: "(", "EMPTY")
+								}
+							}
 							rows++
 							if ok1 && got != want && bad == "" {
 								bad = fmt.Sprintf("%s writes %q for %s %s where write writes %q", short(f), got, gt, lay, want)
